@@ -93,10 +93,12 @@ def contract(name):
     return ("        requires %s,\n        ensures ({ %s %s }),\n" % (pre, lets, post))
 
 
-def build():
+def build(exclude=()):
     text = vmenv.prelude([os.path.join(HERE, 'spec.rs')])
     meta = {}
     for hname, h in HELPER_FNS.items():
+        if hname in exclude:
+            continue
         ftxt = S.item(V, h['rx'])
         sig, body = S.fn_parts(ftxt)
         sig = re.sub(r'-> Option<AbraInt>', '-> (r: Option<AbraInt>)', sig)
@@ -105,6 +107,8 @@ def build():
     text += "\nimpl VmGreenThread {\n"
     rewrites = {'R2': 0, 'R3': 0, 'proof_splices': len(HELPER_FNS)}
     for name in ARMS:
+        if name in exclude:
+            continue
         arm = S.step_arm(name)
         body = arm['body']
         body, k = vmenv.apply_R2(body)
@@ -138,9 +142,16 @@ def run(tier="quick"):
     sc = E.Scratch("u1")
     obs = []
     try:
-        text, meta, rewrites = build()
-        path = sc.file("u1_int.rs", text)
-        res = E.run_verus(path)
+        state = {}
+
+        def _b(exclude):
+            t, m, r = build(exclude)
+            state['meta'], state['rewrites'] = m, r
+            return t
+        text, res, excluded = vmenv.verify_isolating(_b, set(ARMS) | set(HELPER_FNS), sc, "u1_int.rs")
+        meta, rewrites = state['meta'], state['rewrites']
+        for nm, why in excluded.items():
+            meta.setdefault(nm, dict(contract="", sha=""))
         lines = E.fn_line_ranges(text)
         errs_by_fn = {}
         for e in res['errors']:
@@ -158,7 +169,7 @@ def run(tier="quick"):
             f = [v for k, v in res['functions'].items() if k.endswith("::arm_" + name)]
             oid = "%s.vm.%s.post" % (props[0], name)
             if not f:
-                st, detail, t, rl = E.UNDECIDED, "function not reported by verus", 0, None
+                st, detail, t, rl = E.UNDECIDED, excluded.get(name, "function not reported by verus"), 0, None
             else:
                 t, rl = f[0]['time_s'], f[0]['rlimit']
                 if f[0]['success']:
@@ -175,7 +186,7 @@ def run(tier="quick"):
             f = [v for k, v in res['functions'].items() if k.split("::")[-1] == hname]
             st = E.UNDECIDED if not f else (E.DISCHARGED if f[0]['success'] else E.FAILED)
             obs.append(E.Obligation("C15.vm.%s.post" % hname, h['props'], UNIT, hname, "verus/z3", st,
-                                    "\n".join(errs_by_fn.get(hname, [])), f[0]['time_s'] if f else 0,
+                                    "\n".join(errs_by_fn.get(hname, [])) or excluded.get(hname, ""), f[0]['time_s'] if f else 0,
                                     "abra_core/src/vm.rs", meta[hname]['sha'], None, h['contract'],
                                     rlimit=f[0]['rlimit'] if f else None))
         # helper lemmas are obligations too
@@ -202,6 +213,9 @@ def run(tier="quick"):
                                     r['time_s'], "abra_core/src/vm.rs", tinfo['arm_sha'].get(n, ""), bounded,
                                     "harness vm::u1_twin::twin_%s: operands a,b = kani::any::<i64>(); registers (Top,Top,Top)/(Top,Top,imm); "
                                     "outcome class (value / overflow / division by zero) must equal the i128 oracle; value compared for + - *" % n))
+        if any(o.status == E.UNDECIDED for o in obs) and os.environ.get("ABRA_VERIF_PROP") in (None, "C15", "C05"):
+            from units import clidiff
+            obs.append(clidiff.standin_obligation(E, "C15.cli.operand_forms.sampled", ["C15", "C05"], UNIT, "abra_core/src/vm.rs"))
         info = dict(
             assumptions=vmenv.ASSUMED + vmk.ASSUMED + [
                 "verus/U1: assume_specification for i64::checked_pow (std documentation: exact power or None on overflow)",
@@ -278,6 +292,9 @@ def lit(n):
 def replay(ob):
     """Counterexample from the Kani twin of the failed arm, replayed as an Abra program
     on the real CLI built from /repo."""
+    if ob.id.endswith(".cli.operand_forms.sampled"):
+        from units import clidiff
+        return clidiff.standin_replay(ob)
     m = re.search(r'Instr::(\w+)', ob.function)
     if not m or m.group(1) not in OPSYM:
         return grid_replay(ob)
